@@ -191,9 +191,29 @@ type harness struct {
 	ops  []*op
 	done bool // body ran to its end
 
+	lastAt     time.Duration
+	lastTh     int
+	collisions int64
+
 	tagCls    [maxTags]int
 	tagPut    [maxTags]bool
 	quiescent int64
+}
+
+// seen counts events of two different threads at the same simulated instant:
+// their order is then the Go runtime's, not the simulator's (residual replay
+// divergence, measured by ./check selftest-determinism).
+func (h *harness) seen(th int) {
+	if th >= 4 {
+		return
+	}
+	now := h.s.Now()
+	h.mu.Lock()
+	if h.lastAt == now && h.lastTh != th && h.lastTh >= 0 {
+		h.collisions++
+	}
+	h.lastAt, h.lastTh = now, th
+	h.mu.Unlock()
 }
 
 func (h *harness) stamp() int64 {
@@ -207,6 +227,7 @@ func (h *harness) stamp() int64 {
 // begin stamps the invocation of the given operations (consecutive numbers,
 // one lock acquisition) and registers them in the history.
 func (h *harness) begin(ops ...*op) {
+	h.seen(ops[0].th)
 	h.mu.Lock()
 	for _, o := range ops {
 		h.seq++
@@ -215,11 +236,18 @@ func (h *harness) begin(ops ...*op) {
 	}
 	h.mu.Unlock()
 	for _, o := range ops {
+		if o.th >= 4 && o.th < 8 {
+			// burst goroutines run truly parallel: their relative order is the Go
+			// runtime's, so it is kept out of the interleaving hash
+			h.s.Note("t%d %s.inv %s", o.th, opNames[o.kind], h.detail(o, false))
+			continue
+		}
 		h.s.Event("t"+strconv.Itoa(o.th), opNames[o.kind]+".inv", h.detail(o, false))
 	}
 }
 
 func (h *harness) end(ops ...*op) {
+	h.seen(ops[0].th)
 	h.mu.Lock()
 	for _, o := range ops {
 		h.seq++
@@ -227,6 +255,10 @@ func (h *harness) end(ops ...*op) {
 	}
 	h.mu.Unlock()
 	for _, o := range ops {
+		if o.th >= 4 && o.th < 8 {
+			h.s.Note("t%d %s.ret %s", o.th, opNames[o.kind], h.detail(o, true))
+			continue
+		}
 		h.s.Event("t"+strconv.Itoa(o.th), opNames[o.kind]+".ret", h.detail(o, true))
 	}
 }
@@ -272,7 +304,7 @@ func execC18(t *testing.T, sc *kernel.Scenario, trace bool) *kernel.Result {
 
 func newHarness(s *world.Sim) *harness {
 	sc := s.Sc
-	h := &harness{s: s, relay: wire.NewRelay()}
+	h := &harness{s: s, relay: wire.NewRelay(), lastTh: -1}
 	h.nc = int(sc.Cfg("nc", 2))
 	if h.nc < 0 {
 		h.nc = 0
@@ -422,7 +454,9 @@ func (h *harness) run() {
 				}
 				tag, _ := tagOf(e)
 				c.read.add(tag)
-				s.Event("r"+strconv.Itoa(k), "read", "e"+strconv.Itoa(tag))
+				// readers run parallel to the threads (GOMAXPROCS > 1) and never
+				// influence them (a receiver never fills up): trace only
+				s.Note("r%d read e%d", k, tag)
 				if readerMax > 0 {
 					s.Sleep("reader:"+strconv.Itoa(k), 0, readerMax)
 				}
@@ -439,7 +473,14 @@ func (h *harness) run() {
 		go func(th int, steps []*kernel.Step) {
 			defer wg.Done()
 			for _, st := range steps {
-				time.Sleep(s.Delay("gap:"+strconv.FormatInt(st.Int("id"), 10), 0, gap))
+				// keyed gap, rounded up so that thread th always wakes at an instant
+				// = th (mod 4 ns): two threads never leave their gaps at the same
+				// instant (with GOMAXPROCS > 1 the runtime, not the simulator, would
+				// order them)
+				d := s.Delay("gap:"+strconv.FormatInt(st.Int("id"), 10), 0, gap)
+				at := s.Now() + d
+				d += (time.Duration(th) - at%4 + 4) % 4
+				time.Sleep(d)
 				h.do(th, st)
 			}
 		}(th, per[th])
@@ -514,8 +555,10 @@ func (h *harness) do(th int, st *kernel.Step) {
 			}()
 		}
 		h.s.Count("op.burst", 1)
+		h.s.Event("t"+strconv.Itoa(th), "burst.inv", fmt.Sprintf("%d goroutines x %d puts of class %d", n, m, cls))
 		close(start)
 		wg.Wait()
+		h.s.Event("t"+strconv.Itoa(th), "burst.ret", "")
 	case "subscribe":
 		k := int(st.Int("k"))
 		c := h.cons[k]
